@@ -39,7 +39,7 @@ def bad(node, why):
 
 COQ_TYPE = {"Q": "Q", "Z": "Z", "bool": "bool", "F": "F", "pos": "position", "mv": "mv", "color": "color",
             "ocolor": "option color", "oreason": "option reason", "pystat": "pystat", "pynode": "pynode",
-            "cfg": "pyconfig", "unit": "unit"}
+            "cfg": "pyconfig", "unit": "unit", "ref": "place", "xtime": "xtime", "heap": "pynode"}
 
 
 def coq_type(t):
@@ -62,7 +62,8 @@ ATTRS = {
                "child_probs": ("opt:list:Q", "pn_child_probs"), "children": ("opt:list:pynode", "pn_children")},
     "pos": {"size": ("Z", "size")},
     "cfg": {"cutoff_prob": ("Q", "cfg_cutoff_prob"), "root_noise_alpha": ("opt:Q", "cfg_root_noise_alpha"),
-            "root_noise_mix": ("Q", "cfg_root_noise_mix")},
+            "root_noise_mix": ("Q", "cfg_root_noise_mix"), "time_limit": ("Q", "cfg_time_limit"),
+            "simulation_limit": ("Z", "cfg_simulation_limit")},
 }
 SETTERS = {("pystat", "value"): "set_ps_value", ("pystat", "simulations"): "set_ps_simulations",
            ("pystat", "v_zero"): "set_ps_v_zero", ("pynode", "v_zero"): "set_pn_v_zero",
@@ -123,10 +124,28 @@ def coerce(term, typ, want, node):
     bad(node, f"type {typ} where {want} is needed")
 
 
+MODE = {"m": False}      # True while a function that threads the oracle state (monad M of MctsSem.v) is compiled
+EMITTED = {}
+
+
+def bind1(pat, term, body):
+    """one bind in the current monad; a term tagged "M:" is a stateful computation"""
+    if MODE["m"]:
+        t = term[2:] if term.startswith("M:") else f"lift ({term})"
+        return f"{pat} <~ {t} ;;\n{body}"
+    if term.startswith("M:"):
+        raise Untranslatable("a stateful oracle (sampler / clock / network) is used in a function translated as pure: " + term[:60])
+    return f"{pat} <- {term} ;;\n{body}"
+
+
+def ok(term):
+    return f"mret {term}" if MODE["m"] else f"Ok {term}"
+
+
 def bind_all(prelude, body):
     out = body
     for var, term in reversed(prelude):
-        out = f"{var} <- {term} ;;\n{out}"
+        out = bind1(var, term, out)
     return out
 
 
@@ -143,7 +162,7 @@ def cx(fn, e, env, want=None):
 def cx_res(fn, e, env, want=None):
     """an expression as ONE res term (its own prelude folded in)"""
     pre, term, typ = cx(fn, e, env, want)
-    return bind_all(pre, f"Ok {term}") if pre else None, term, typ, pre
+    return bind_all(pre, ok(term)) if pre else None, term, typ, pre
 
 
 def cx0(fn, e, env, want):
@@ -177,15 +196,20 @@ def cx0(fn, e, env, want):
         return cx_binop(fn, e, env)
     if isinstance(e, ast.Compare):
         return cx_compare(fn, e, env)
-    if isinstance(e, ast.BoolOp) and isinstance(e.op, ast.And):
-        pre, terms = [], []
-        for v in e.values:
-            p, t, ty = cx(fn, v, env, "bool")
-            if p and terms:
-                bad(e, "raising operand after the first in `and`")
-            pre += p
-            terms.append(t)
-        return pre, "(" + " && ".join(terms) + ")", "bool"
+    if isinstance(e, ast.BoolOp):
+        is_and = isinstance(e.op, ast.And)
+        parts = [cx(fn, v, env, "bool") for v in e.values]
+        if not any(p for p, _, _ in parts[1:]):
+            pre = parts[0][0]
+            return pre, "(" + (" && " if is_and else " || ").join(t for _, t, _ in parts) + ")", "bool"
+        # a later operand has effects / can raise: it is evaluated only when Python evaluates it
+        term = bind_all(parts[-1][0], ok(parts[-1][1]))
+        for p, t, _ in reversed(parts[1:-1]):
+            term = bind_all(p, f"if {t} then {term if is_and else ok('true')} else {ok('false') if is_and else term}")
+        v = fn.fresh()
+        first_pre, first_t, _ = parts[0]
+        cond = f"(if {first_t} then {term if is_and else ok('true')} else {ok('false') if is_and else term})"
+        return first_pre + [(v, ("M:" if MODE["m"] else "") + cond)], v, "bool"
     if isinstance(e, ast.IfExp):
         pc, c, _ = cx(fn, e.test, env, "bool")
         ra, ta, tya, pa = cx_res(fn, e.body, env)
@@ -199,7 +223,7 @@ def cx0(fn, e, env, want):
         if not pa and not pb:
             return pc, f"(if {c} then {ta} else {tb})", tya
         v = fn.fresh()
-        return pc + [(v, f"(if {c} then {ra or 'Ok ' + ta} else {rb or 'Ok ' + tb})")], v, tya
+        return pc + [(v, ("M:" if MODE["m"] else "") + f"(if {c} then {ra or ok(ta)} else {rb or ok(tb)})")], v, tya
     if isinstance(e, ast.Attribute):
         return cx_attr(fn, e, env)
     if isinstance(e, ast.Subscript):
@@ -211,14 +235,27 @@ def cx0(fn, e, env, want):
     bad(e, "expression")
 
 
+def hp_of(env, node):
+    if "@hp" not in env:
+        bad(node, "a node reference is used where no tree is in scope")
+    return env["@hp"].coq
+
+
 def cx_attr(fn, e, env):
     chain = name_chain(e)
+    if chain == ["self", "config", "C"] and fn.self_type is None:
+        return [], "cfg_C", "F"
     if chain and chain[:2] == ["self", "config"] and len(chain) == 3 and fn.self_type is None:
         if chain[2] not in ATTRS["cfg"]:
             bad(e, "config field")
         ty, acc = ATTRS["cfg"][chain[2]]
         return [], f"({acc} cfg)", ty
+    if chain == ["self", "config", "C"] and fn.self_type is None:
+        return [], "cfg_C", "F"
     pre, t, ty = cx(fn, e.value, env)
+    if ty == "ref":                      # an attribute of the node behind a reference: read through the tree
+        v = fn.fresh()
+        pre, t, ty = pre + [(v, f"pt_get {hp_of(env, e)} {t}")], v, "pynode"
     if ty in ATTRS and e.attr in ATTRS[ty]:
         rty, acc = ATTRS[ty][e.attr]
         return pre, f"({acc} {t})", rty
@@ -267,6 +304,10 @@ def cx_compare(fn, e, env):
     pa, a, ta = cx(fn, e.left, env)
     pb, b, tb = cx(fn, right, env)
     pre = pa + pb
+    if ta == "ref" and tb == "ref" and op in ("Is", "IsNot"):
+        return pre, (f"(place_eqb {a} {b})" if op == "Is" else f"(negb (place_eqb {a} {b}))"), "bool"
+    if ta == "Q" and tb == "xtime" and op == "Gt":
+        return pre, f"(xt_gt {a} {b})", "bool"
     if ta == "ocolor" and tb == "color" and op == "Eq":
         return pre, f"(opt_color_is {a} {b})", "bool"
     if ta == "list:Q" and tb in ("Q", "Z") and op in ("GtE", "Gt"):
@@ -288,6 +329,12 @@ def cx_compare(fn, e, env):
 
 
 def cx_subscript(fn, e, env):
+    if isinstance(e.value, ast.Attribute) and e.value.attr == "children" and not isinstance(e.slice, ast.Slice):
+        p0, t0, ty0 = cx(fn, e.value.value, env)
+        if ty0 == "ref":
+            pi, i, _ = cx(fn, e.slice, env, "Z")
+            v = fn.fresh()
+            return p0 + pi + [(v, f"pt_child {hp_of(env, e)} {t0} {i}")], v, "ref"
     pre, t, ty = cx(fn, e.value, env)
     s = e.slice
     if isinstance(s, ast.Slice):
@@ -305,6 +352,11 @@ def cx_subscript(fn, e, env):
     bad(e, f"subscript of {ty} by {ti}")
 
 
+# the search functions: how they are called (pure res / stateful with fuel) and what they return
+SEARCH_FUNS = {"descend": ("fuel", "list:ref"), "analyze_tree": ("fuel", "heap"), "analyze": ("fuel", "heap"),
+               "select_root_move": ("m", "opt:mv"), "tree_probs": ("pure", "opt:list:Q"), "get_move": ("fuel", "opt:mv")}
+
+
 def is_call(e, chain):
     return isinstance(e, ast.Call) and name_chain(e.func) == chain
 
@@ -313,7 +365,7 @@ def cx_call(fn, e, env):
     chain = name_chain(e.func)
     nargs = len(e.args)
     # torch.nonzero(B)[:, 0].numpy()
-    if (isinstance(e.func, ast.Attribute) and e.func.attr == "numpy" and nargs == 0
+    if (isinstance(e.func, ast.Attribute) and e.func.attr in ("numpy", "tolist") and nargs == 0
             and isinstance(e.func.value, ast.Subscript) and is_call(e.func.value.value, ["torch", "nonzero"])):
         sub = e.func.value
         sl = sub.slice
@@ -340,7 +392,49 @@ def cx_call(fn, e, env):
         if tt != "list:Q" or ta != "opt:Q":
             bad(e, "Dirichlet argument types")
         v = fn.fresh()
-        return pt + pa + [(v, f"dirichlet (zlen {t}) {a}")], v, "list:Q"
+        return pt + pa + [(v, f"M:dirichlet_st (zlen {t}) {a}" if MODE["m"] else f"dirichlet (zlen {t}) {a}")], v, "list:Q"
+    # torch.multinomial(P, 1).item(): the sampler, an oracle with state
+    if (isinstance(e.func, ast.Attribute) and e.func.attr == "item" and nargs == 0
+            and is_call(e.func.value, ["torch", "multinomial"])):
+        mc = e.func.value
+        if len(mc.args) != 2 or mc.keywords or not (isinstance(mc.args[1], ast.Constant) and mc.args[1].value == 1):
+            bad(e, "multinomial pattern")
+        pp, pol, tp = cx(fn, mc.args[0], env)
+        if tp != "opt:list:Q":
+            bad(e, "multinomial of " + tp)
+        v = fn.fresh()
+        return pp + [(v, f"M:multinomial {pol}")], v, "Z"
+    if chain == ["time", "monotonic"] and nargs == 0 and not e.keywords:
+        v = fn.fresh()
+        return [(v, "M:monotonic")], v, "Q"
+    if chain == ["float"] and nargs == 1 and isinstance(e.args[0], ast.Constant) and e.args[0].value == "inf":
+        return [], "TInf", "xtime"
+    if isinstance(e.func, ast.Attribute) and e.func.attr == "policy_probs" and nargs == 1 and not e.keywords:
+        pn, n, tn = cx(fn, e.func.value, env)
+        if tn == "ref":
+            v0 = fn.fresh()
+            pn, n, tn = pn + [(v0, f"pt_get {hp_of(env, e)} {n}")], v0, "pynode"
+        if tn != "pynode":
+            bad(e, "policy_probs of " + tn)
+        pc, c, _ = cx(fn, e.args[0], env, "F")
+        v = fn.fresh()
+        return pn + pc + [(v, f"policy_probs F f_sqrt f_mul f_div_int solve_policy {n} {c}")], v, "opt:list:Q"
+    if chain and chain[0] == "self" and len(chain) == 2 and chain[1] in SEARCH_FUNS and fn.self_type is None and not e.keywords:
+        kind, rty = SEARCH_FUNS[chain[1]]
+        args = [cx(fn, a, env) for a in e.args]
+        pre = [x for p, _, _ in args for x in p]
+        if chain[1] in ("descend", "select_root_move", "tree_probs", "analyze_tree"):
+            if len(args) != 1 or args[0][2] != "ref":
+                bad(e, chain[1] + " argument")
+            call = f"{chain[1]} {'fuel0 cfg ' if kind == 'fuel' else ''}{hp_of(env, e)} {args[0][1]}"
+        elif chain[1] == "analyze":
+            if len(args) != 1 or args[0][2] != "pos":
+                bad(e, "analyze argument")
+            call = f"analyze fuel0 cfg {args[0][1]}"
+        else:
+            bad(e, "call")
+        v = fn.fresh()
+        return pre + [(v, ("" if kind == "pure" else "M:") + call)], v, rty
     if e.keywords and chain != ["Node"]:
         bad(e, "keyword arguments")
     if chain == ["reversed"] and nargs == 1:
@@ -380,7 +474,7 @@ def cx_call(fn, e, env):
     if chain == ["self", "network", "evaluate"] and nargs == 1 and fn.self_type is None:
         pre, t, ty = cx(fn, e.args[0], env, "pos")
         v = fn.fresh()
-        return pre + [(v, f"evaluate {t}")], v, "pair:list:Q|Q"
+        return pre + [(v, f"M:evaluate_st {t}" if MODE["m"] else f"evaluate {t}")], v, "pair:list:Q|Q"
     if chain == ["encoding", "n_moves_for_size"] and nargs == 1:
         pre, t, ty = cx(fn, e.args[0], env, "Z")
         return pre, f"(n_moves_for_size {t})", "Z"
@@ -389,6 +483,10 @@ def cx_call(fn, e, env):
         p2, b, _ = cx(fn, e.args[1], env, "Z")
         v = fn.fresh()
         return p1 + p2 + [(v, f"py_decode_move {a} {b}")], v, "mv"
+    if (chain == ["Node"] and nargs == 0 and [k.arg for k in e.keywords] == ["position", "move"]
+            and isinstance(e.keywords[1].value, ast.Constant) and e.keywords[1].value.value is None):
+        p1, a, _ = cx(fn, e.keywords[0].value, env, "pos")
+        return p1, f"(py_new_root {a})", "heap"
     if chain == ["Node"] and nargs == 0 and [k.arg for k in e.keywords] == ["position", "move"]:
         p1, a, _ = cx(fn, e.keywords[0].value, env, "pos")
         p2, b, _ = cx(fn, e.keywords[1].value, env, "mv")
@@ -466,6 +564,11 @@ def assigned_names(stmts):
                 target(t)
         elif isinstance(s, ast.AugAssign):
             target(s.target)
+        elif isinstance(s, ast.Expr) and isinstance(s.value, ast.Call) and name_chain(s.value.func) in (["self", "populate"], ["self", "update"]):
+            add("@hp")
+        elif isinstance(s, ast.While):
+            for n in assigned_names(s.body):
+                add(n)
         elif isinstance(s, ast.Expr) and isinstance(s.value, ast.Call) and isinstance(s.value.func, ast.Attribute) \
                 and s.value.func.attr == "append":
             ch = name_chain(s.value.func.value)
@@ -488,7 +591,7 @@ def always_returns(stmts):
     if not stmts:
         return False
     last = stmts[-1]
-    if isinstance(last, ast.Return):
+    if isinstance(last, (ast.Return, ast.Break, ast.Continue)):
         return True
     if isinstance(last, ast.If):
         return always_returns(last.body) and always_returns(last.orelse)
@@ -510,14 +613,46 @@ def tuple_val(names):
     return names[0] if len(names) == 1 else "(" + ", ".join(names) + ")"
 
 
-def cs(fn, stmts, env, k, loop_k=None):
-    """term (of type res ..) for the statements followed by k(env)"""
+def cs(fn, stmts, env, k, loop_k=None, break_k=None):
+    """term (of type res .. / M ost ..) for the statements followed by k(env)"""
     if not stmts:
         return k(env)
     s, rest = stmts[0], stmts[1:]
 
     def cont(env2):
-        return cs(fn, rest, env2, k, loop_k)
+        return cs(fn, rest, env2, k, loop_k, break_k)
+
+    if isinstance(s, ast.Break):
+        if rest or break_k is None:
+            bad(s, "break")
+        return break_k(env)
+    if isinstance(s, ast.While):
+        return cs_while(fn, s, rest, env, k, cont)
+    if isinstance(s, ast.Expr) and isinstance(s.value, ast.Call) and name_chain(s.value.func) == ["self", "populate"]:
+        c = s.value
+        if len(c.args) != 2 or c.keywords or not MODE["m"]:
+            bad(s, "populate call")
+        pa, a, ta = cx(fn, c.args[0], env)
+        pb, b, tb = cx(fn, c.args[1], env, "bool")
+        if ta != "ref":
+            bad(s, "populate of " + ta)
+        env2 = dict(env)
+        old_hp = hp_of(env, s)
+        fn.define(env2, "@hp", "heap")
+        env2["@hp"].coq = "hp"
+        return bind_all(pa + pb, bind1("hp", f"M:populate_at cfg {old_hp} {a} {b}", cont(env2)))
+    if isinstance(s, ast.Expr) and isinstance(s.value, ast.Call) and name_chain(s.value.func) == ["self", "update"]:
+        c = s.value
+        if len(c.args) != 1 or c.keywords:
+            bad(s, "update call")
+        pa, a, ta = cx(fn, c.args[0], env)
+        if ta != "list:ref":
+            bad(s, "update of " + ta)
+        env2 = dict(env)
+        old_hp = hp_of(env, s)
+        fn.define(env2, "@hp", "heap")
+        env2["@hp"].coq = "hp"
+        return bind_all(pa, bind1("hp", f"pt_with_stats {old_hp} {a} update", cont(env2)))
 
     if is_stats_update(s) or isinstance(s, ast.Pass):
         return cont(env)
@@ -571,7 +706,7 @@ def cs(fn, stmts, env, k, loop_k=None):
             return bind_all(pre + [(t, f"pn_children_append {old.coq} {v}")], f"let {var.coq} := {t} in\n" + cont(env2))
         bad(s, "append target")
     if isinstance(s, ast.If):
-        return cs_if(fn, s, rest, env, k, loop_k)
+        return cs_if(fn, s, rest, env, k, loop_k, break_k)
     if isinstance(s, ast.For):
         return cs_for(fn, s, env, cont)
     if isinstance(s, ast.Try):
@@ -590,6 +725,14 @@ def target_as_expr(t):
 def cs_assign(fn, target, value, env, cont, s):
     if isinstance(target, ast.Name):
         pre, v, tv = cx(fn, value, env)
+        if tv == "heap":                 # a new tree / the tree a search returns: the name refers to its root
+            env2 = dict(env)
+            fn.define(env2, "@hp", "heap")
+            env2["@hp"].coq = "hp"
+            var = fn.define(env2, target.id, "ref")
+            return bind_all(pre, f"let hp := {v} in\nlet {var.coq} := (@nil Z) in\n" + cont(env2))
+        if tv == "Q" and target.id in getattr(fn, "xtime_vars", ()):
+            v, tv = f"(TFin {v})", "xtime"
         if target.id in env and env[target.id].typ not in (tv, "list:?") and tv != "list:?":
             bad(s, f"{target.id} changes type from {env[target.id].typ} to {tv}")
         env2 = dict(env)
@@ -638,17 +781,17 @@ def cs_assign(fn, target, value, env, cont, s):
     bad(s, "assignment target")
 
 
-def cs_if(fn, s, rest, env, k, loop_k):
+def cs_if(fn, s, rest, env, k, loop_k, break_k=None):
     pc, c, _ = cx(fn, s.test, env, "bool")
     body_ret, else_ret = always_returns(s.body), always_returns(s.orelse)
 
     def after(env2):
-        return cs(fn, rest, env2, k, loop_k)
+        return cs(fn, rest, env2, k, loop_k, break_k)
 
     if body_ret or else_ret:
         # a branch that returns never reaches the rest: the rest goes after the other branch
-        tb = cs(fn, s.body, dict(env), (lambda e2: bad(s, "unreachable")) if body_ret else after, loop_k)
-        te = cs(fn, s.orelse, dict(env), (lambda e2: bad(s, "unreachable")) if else_ret else after, loop_k)
+        tb = cs(fn, s.body, dict(env), (lambda e2: bad(s, "unreachable")) if body_ret else after, loop_k, break_k)
+        te = cs(fn, s.orelse, dict(env), (lambda e2: bad(s, "unreachable")) if else_ret else after, loop_k, break_k)
         return bind_all(pc, f"if {c} then\n{tb}\nelse\n{te}")
     a_body, a_else = assigned_names(s.body), assigned_names(s.orelse)
     state = [n for n in env if n in a_body or n in a_else]
@@ -664,15 +807,15 @@ def cs_if(fn, s, rest, env, k, loop_k):
                 if n not in env2:
                     bad(s, f"{n} is not bound on every path")
                 types[n] = env2[n].typ
-            return "Ok " + tuple_val([env2[n].coq for n in state])
-        return cs(fn, stmts, dict(env), fin, loop_k)
+            return ok(tuple_val([env2[n].coq for n in state]))
+        return cs(fn, stmts, dict(env), fin, loop_k, break_k)
 
     tb = branch(s.body)
     te = branch(s.orelse)
     env2 = dict(env)
     names = [fn.define(env2, n, types[n]).coq for n in state]
     pat = names[0] if len(names) == 1 else "'(" + ", ".join(names) + ")"
-    return bind_all(pc, f"{pat} <- (if {c} then\n{tb}\nelse\n{te}) ;;\n" + after(env2))
+    return bind_all(pc, bind1(pat, ("M:" if MODE["m"] else "") + f"(if {c} then\n{tb}\nelse\n{te})", after(env2)))
 
 
 def cs_try(fn, s, env, cont, loop_k):
@@ -696,6 +839,46 @@ def cs_try(fn, s, env, cont, loop_k):
     return bind_all(pre[:-1], inner)
 
 
+def cs_while(fn, s, rest, env, k, cont):
+    if not (isinstance(s.test, ast.Constant) and s.test.value is True) or s.orelse or not MODE["m"]:
+        bad(s, "only `while True:` in a stateful function")
+    has_ret = any(isinstance(n, ast.Return) for n in ast.walk(s))
+    has_brk = any(isinstance(n, ast.Break) for n in ast.walk(s))
+    if has_ret == has_brk:
+        bad(s, "a while loop must leave either by return or by break")
+    if has_ret and rest:
+        bad(s, "statements after a loop that returns")
+    assigned = assigned_names(s.body)
+    state = sorted([n for n in assigned if n in env], key=lambda n: env[n].order)
+    used = free_names(s.body) + ["@hp"]
+    params = sorted([n for n in used if n in env and n not in state], key=lambda n: env[n].order)
+    params = list(dict.fromkeys(params))
+    fn.nloops += 1
+    fname = f"{fn.name}_while{fn.nloops}"
+
+    def rec_call(env2, fuel="fuel'"):
+        return f"{fname} fuel0 {fuel} cfg " + " ".join([env[n].coq for n in params] + [env2[n].coq for n in state])
+
+    def brk(env2):
+        return ok(tuple_val([env2[n].coq for n in state]))
+    body = cs(fn, s.body, dict(env), lambda env2: rec_call(env2), lambda env2: rec_call(env2), brk)
+    ret_t = fn.ret_coq if has_ret else " * ".join(f"({coq_type(env[n].typ)})" for n in state)
+    sig = " ".join(f"({env[n].coq} : {coq_type(env[n].typ)})" for n in params + state)
+    fn.loops.append((fname, f"Fixpoint {fname} (fuel0 fuel : nat) (cfg : pyconfig) {sig} {{struct fuel}} : M ost ({ret_t}) :=\n"
+                            f"match fuel with\n| O => mcrash OutOfFuel\n| S fuel' =>\n{body}\nend."))
+    call = "M:" + rec_call(env, "fuel0")
+    if has_ret:
+        return call[2:]
+    env2 = dict(env)
+    names = []
+    for n in state:
+        var = fn.define(env2, n, env[n].typ)
+        if n == "@hp":
+            var.coq = "hp"
+        names.append(var.coq)
+    return bind1(tuple_pat(names), call, cont(env2))
+
+
 def free_names(stmts):
     out = []
     for s in stmts:
@@ -706,8 +889,15 @@ def free_names(stmts):
 
 
 def cs_for(fn, s, env, cont):
-    if s.orelse or not isinstance(s.target, ast.Name):
+    enum_target = None
+    if (isinstance(s.target, ast.Tuple) and len(s.target.elts) == 2 and all(isinstance(x, ast.Name) for x in s.target.elts)
+            and is_call(s.iter, ["enumerate"]) and len(s.iter.args) == 1):
+        # for i, x in enumerate(l): iterate over PySem's py_enumerate (pairs)
+        enum_target = (s.target.elts[0].id, s.target.elts[1].id)
+    elif s.orelse or not isinstance(s.target, ast.Name):
         bad(s, "for shape")
+    if s.orelse:
+        bad(s, "for/else")
     for n in ast.walk(s):
         if isinstance(n, (ast.Break, ast.Return)):
             bad(n, "break / return inside a loop")
@@ -716,11 +906,18 @@ def cs_for(fn, s, env, cont):
         src_name, reverse = it_expr.args[0].id, True
     elif isinstance(it_expr, ast.Name):
         src_name = it_expr.id
-    pre, it, ity = cx(fn, it_expr, env)
-    if not ity.startswith("list:"):
-        bad(s, "iteration over " + ity)
+    if enum_target:
+        pre, it, ity = cx(fn, it_expr.args[0], env)
+        if not ity.startswith("list:"):
+            bad(s, "enumerate of " + ity)
+        it, ity = f"(py_enumerate {it})", f"list:pair:Z|{ity[5:]}"
+        lv = "@pair"
+    else:
+        pre, it, ity = cx(fn, it_expr, env)
+        if not ity.startswith("list:"):
+            bad(s, "iteration over " + ity)
+        lv = s.target.id
     elt = ity[5:]
-    lv = s.target.id
     assigned = assigned_names(s.body)
     mutates_elt = lv in assigned
     if mutates_elt and (src_name is None or elt not in ("pystat",)):
@@ -733,10 +930,17 @@ def cs_for(fn, s, env, cont):
     uses_cfg = any(name_chain(n) and name_chain(n)[:2] == ["self", "config"] for b in s.body for n in ast.walk(b)
                    if isinstance(n, ast.Attribute))
     fn.nloops += 1
-    fname = f"{fn.name}_for{fn.nloops}"
+    fname = f"{getattr(fn, 'loop_prefix', fn.name)}_for{fn.nloops}"
     envb = dict(env)
-    fn.define(envb, lv, elt)
+    if enum_target:
+        envb["@pair"] = Var("x_pair", elt, 0)
+        ta, tb = elt[5:].split("|", 1)
+        envb[enum_target[0]] = Var("(fst x_pair)", ta, 0)
+        envb[enum_target[1]] = Var("(snd x_pair)", tb, 0)
+    else:
+        fn.define(envb, lv, elt)
     raising = [False]
+    saved_mode, MODE["m"] = MODE["m"], False        # a for loop is translated as a pure (res) Fixpoint
     types = {}
 
     def rec_call(env2):
@@ -772,8 +976,16 @@ def cs_for(fn, s, env, cont):
     sig = ("(cfg : pyconfig) " if uses_cfg else "") + \
         " ".join(f"({env[n].coq} : {coq_type(env[n].typ)})" for n in params) + " " + \
         " ".join(f"({env[n].coq} : {coq_type(types[n])})" for n in state)
-    fn.loops.append((fname, f"Fixpoint {fname} {sig} (it : list ({coq_type(elt)})) {{struct it}} : {ret_t} :=\n"
-                            f"match it with\n| [] => {base}\n| {envb[lv].coq} :: it' =>\n{body}\nend."))
+    MODE["m"] = saved_mode
+    if "M:" in body:
+        bad(s, "a stateful oracle inside a for loop")
+    text = (f"Fixpoint {fname} {sig} (it : list ({coq_type(elt)})) {{struct it}} : {ret_t} :=\n"
+            f"match it with\n| [] => {base}\n| {envb[lv].coq} :: it' =>\n{body}\nend.")
+    if EMITTED.get(fname) != text:
+        if fname in EMITTED:
+            bad(s, "two different loops would get the name " + fname)
+        EMITTED[fname] = text
+        fn.loops.append((fname, text))
     env2 = dict(env)
     call = f"{fname} " + " ".join((["cfg"] if uses_cfg else []) + [env[n].coq for n in params] + [env[n].coq for n in state] + [it])
     names = [fn.define(env2, n, types[n]).coq for n in state]
@@ -784,9 +996,7 @@ def cs_for(fn, s, env, cont):
         extra = f"let {src.coq} := {'(rev out)' if reverse else 'out'} in\n"
     pat = tuple_pat(names)
     if raising[0]:
-        if pat.startswith("'"):
-            return bind_all(pre, f"{pat} <- {call} ;;\n{extra}" + cont(env2))
-        return bind_all(pre, f"{pat} <- {call} ;;\n{extra}" + cont(env2))
+        return bind_all(pre, bind1(pat, call, extra + cont(env2)))
     return bind_all(pre, f"let {pat} := {call} in\n{extra}" + cont(env2))
 
 
@@ -825,8 +1035,8 @@ def tr_update(tree):
     env = {}
     fn.define(env, names[1], "list:pystat")
     pname = names[1]
-    fn.ret = lambda env2, value: (bad(f, "update returns a value") if value is not None else f"Ok {env2[pname].coq}")
-    body = cs(fn, f.body, env, lambda env2: f"Ok {env2[pname].coq}")
+    fn.ret = lambda env2, value: (bad(f, "update returns a value") if value is not None else ok(env2[pname].coq))
+    body = cs(fn, f.body, env, lambda env2: ok(env2[pname].coq))
     text = "\n\n".join(t for _, t in fn.loops) + \
         f"\n\nDefinition update (v_{pname} : list pystat) : res (list pystat) :=\n{body}."
     return finish(fn, text), src_of(f)
@@ -846,7 +1056,7 @@ def tr_policy_probs(tree):
             bad(f, "policy_probs must return a value")
         pre, v, tv = cx(fn, value, env2)
         v, _ = coerce(v, tv, "opt:list:Q", value)
-        return bind_all(pre, f"Ok {v}")
+        return bind_all(pre, ok(v))
     fn.ret = ret
     body = cs(fn, f.body, env, lambda env2: bad(f, "policy_probs falls off the end"))
     text = ("Section policy_probs_oracles.\n"
@@ -872,8 +1082,8 @@ def tr_populate(tree):
     fn.define(env, names[1], "pynode")
     fn.define(env, names[2], "bool")
     nname = names[1]
-    fn.ret = lambda env2, value: (bad(f, "populate returns a value") if value is not None else f"Ok {env2[nname].coq}")
-    body = cs(fn, f.body, env, lambda env2: f"Ok {env2[nname].coq}")
+    fn.ret = lambda env2, value: (bad(f, "populate returns a value") if value is not None else ok(env2[nname].coq))
+    body = cs(fn, f.body, env, lambda env2: ok(env2[nname].coq))
     text = ("Section populate_oracles.\n"
             "(* network.evaluate(position) and torch.distributions.Dirichlet(full_like(raw, alpha)).sample() *)\n"
             "Variable evaluate : position -> res (list Q * Q).\n"
@@ -884,13 +1094,104 @@ def tr_populate(tree):
     return finish(fn, text), src_of(f)
 
 
+def tr_search(tree):
+    """populate again against stateful oracles, then tree_probs, select_root_move, descend, analyze_tree, analyze, get_move"""
+    srcs, defs = [], []
+
+    def start(name, cls="MCTS"):
+        f = find_method(tree, cls, name)
+        srcs.append(src_of(f))
+        return f, arg_names(f)
+
+    def emit(fn, header, body):
+        defs.extend(t for _, t in fn.loops)
+        defs.append(finish(fn, f"{header} :=\n{body}."))
+
+    # ---- populate, state-passing (same source, same loop function)
+    MODE["m"] = True
+    f, names = start("populate")
+    fn = Fn("populate_st", None, "node")
+    fn.loop_prefix = "populate"
+    env = {}
+    fn.define(env, names[1], "pynode")
+    fn.define(env, names[2], "bool")
+    nname = names[1]
+    fn.ret = lambda env2, value: (bad(f, "populate returns a value") if value is not None else ok(env2[nname].coq))
+    body = cs(fn, f.body, env, lambda env2: ok(env2[nname].coq))
+    emit(fn, f"Definition populate_st (cfg : pyconfig) (v_{names[1]} : pynode) (v_{names[2]} : bool) : M ost pynode", body)
+    defs.append("(* self.populate(ref, flag): the node behind the reference is read, rewritten, written back *)\n"
+                "Definition populate_at (cfg : pyconfig) (hp : pynode) (pl : place) (is_root : bool) : M ost pynode :=\n"
+                "n <~ lift (pt_get hp pl) ;;\nn' <~ populate_st cfg n is_root ;;\nlift (pt_set hp pl n').")
+
+    def with_tree(name, mode, ret_typ, ptype):
+        """a method whose argument is a node reference (ptype 'ref') or a position"""
+        MODE["m"] = mode
+        f, names = start(name)
+        if len(names) != 2 or names[0] != "self":
+            bad(f, name + " signature")
+        fn = Fn(name, None, ret_typ)
+        fn.ret_coq = coq_type(ret_typ)
+        fn.xtime_vars = {t.id for n in ast.walk(f) if isinstance(n, ast.Assign) and is_call(n.value, ["float"])
+                         for t in n.targets if isinstance(t, ast.Name)}
+        env = {}
+        if ptype == "ref":
+            fn.define(env, "@hp", "heap")
+            env["@hp"].coq = "hp"
+        param = fn.define(env, names[1], ptype)
+        assigned = assigned_names(f.body)
+
+        def ret(env2, value):
+            if value is None:
+                bad(f, name + " must return a value")
+            if ret_typ == "heap" and isinstance(value, ast.Name):
+                if value.id != names[1] or names[1] in assigned or env2[value.id].coq != param.coq:
+                    bad(value, "the node returned must be the one the search was started on")
+                return ok(hp_of(env2, value))
+            pre, v, tv = cx(fn, value, env2)
+            if ret_typ == "heap" and tv == "heap":
+                return bind_all(pre, ok(v))
+            v, _ = coerce(v, tv, ret_typ, value)
+            return bind_all(pre, ok(v))
+        fn.ret = ret
+        body = cs(fn, f.body, env, lambda env2: bad(f, name + " falls off the end"))
+        return fn, names[1], body
+
+    fn, a, body = with_tree("tree_probs", False, "opt:list:Q", "ref")
+    emit(fn, f"Definition tree_probs (hp : pynode) (v_{a} : place) : res (option (list Q))", body)
+    fn, a, body = with_tree("select_root_move", True, "opt:mv", "ref")
+    emit(fn, f"Definition select_root_move (hp : pynode) (v_{a} : place) : M ost (option mv)", body)
+    fn, a, body = with_tree("descend", True, "list:ref", "ref")
+    emit(fn, f"Definition descend (fuel0 : nat) (cfg : pyconfig) (hp : pynode) (v_{a} : place) : M ost (list place)", body)
+    fn, a, body = with_tree("analyze_tree", True, "heap", "ref")
+    emit(fn, f"Definition analyze_tree (fuel0 : nat) (cfg : pyconfig) (hp : pynode) (v_{a} : place) : M ost pynode", body)
+    fn, a, body = with_tree("analyze", True, "heap", "pos")
+    emit(fn, f"Definition analyze (fuel0 : nat) (cfg : pyconfig) (v_{a} : position) : M ost pynode", body)
+    fn, a, body = with_tree("get_move", True, "opt:mv", "pos")
+    emit(fn, f"Definition get_move (fuel0 : nat) (cfg : pyconfig) (v_{a} : position) : M ost (option mv)", body)
+    MODE["m"] = False
+    text = ("Section search_oracles.\n"
+            "(* the oracles with state (sampler, clock, network, Dirichlet sample), the float operations of the multiplier,\n"
+            "   the native solver, Config.C *)\n"
+            "Variable ost : Type.\n"
+            "Variable multinomial : option (list Q) -> M ost Z.\n"
+            "Variable monotonic : M ost Q.\n"
+            "Variable evaluate_st : position -> M ost (list Q * Q).\n"
+            "Variable dirichlet_st : Z -> option Q -> M ost (list Q).\n"
+            "Variable F : Type.\nVariable f_sqrt : Z -> F.\nVariable f_mul : F -> F -> F.\nVariable f_div_int : F -> Z -> F.\n"
+            "Variable solve_policy : list Q -> list Q -> F -> res (list Q).\n"
+            "Variable cfg_C : F.\n\n" + "\n\n".join(defs) + "\nEnd search_oracles.")
+    return text, "\n".join(srcs)
+
+
 def src_of(f):
     return ast.unparse(f)
 
 
 HEADER = """(* GENERATED by harness/mcts2coq.py from python/tak/mcts.py - do not edit.
    MCTS.update, Node.policy_probs, MCTS.populate as a shallow embedding against
-   model/PySem.v + model/MctsSem.v.  sha256 of the three function sources: {sha} *)
+   model/PySem.v + model/MctsSem.v; then the search loop (descend, analyze_tree, analyze,
+   get_move, select_root_move, tree_probs) over the tree-as-heap and the stateful oracles
+   of MctsSem.v.  sha256 of the translated sources: {sha} *)
 From Coq Require Import ZArith QArith List Bool.
 From TV Require Import model.Tak model.Road model.PySem model.Mcts model.MctsSem.
 Import ListNotations.
@@ -908,8 +1209,10 @@ def translate(repo_python):
     try:
         src = (Path(repo_python) / "tak" / "mcts.py").read_text()
         tree = ast.parse(src)
+        EMITTED.clear()
+        MODE["m"] = False
         parts, srcs = [], []
-        for tr in (tr_update, tr_policy_probs, tr_populate):
+        for tr in (tr_update, tr_policy_probs, tr_populate, tr_search):
             text, s = tr(tree)
             parts.append(text)
             srcs.append(s)
